@@ -123,8 +123,13 @@ impl<R: Records, S> DatasetBase<R, S> {
 impl<X, Y> Dataset<X, Y> {
     // Convert 2D targets to 1D. Only works for targets with shape of form [X, 1], panics otherwise.
     pub fn into_single_target(self) -> Dataset<X, Y, Ix1> {
-        let nsamples = self.records.nsamples();
-        let targets = self.targets.into_shape(nsamples).unwrap();
+        assert_eq!(
+            self.targets.dim(),
+            (self.records.nsamples(), 1),
+            "targets must have shape [nsamples, 1]"
+        );
+        // unlike `into_shape`, this does not depend on the memory layout of the targets
+        let targets = self.targets.index_axis_move(Axis(1), 0);
         let features = self.records;
         Dataset::new(features, targets)
     }
